@@ -254,6 +254,8 @@ def run(cx: Cx):
     from .common import include_premises
     include_premises(cx, ['C09'], 'reading a cell component through get_cell uses the coordinate -> id mapping',
                      only=lambda o: o.function.endswith('.get_cell') or 'get_cell' in o.key)
+    from .common import check_no_stateful_memo
+    check_no_stateful_memo(cx)
 
 
 def _arm(arms, pcond, v, p, pos, arity, table):
